@@ -601,6 +601,32 @@ func init() {
 			count("reordered_runs")
 		}
 		checkArgs("reordered runs")
+		// (b00) argument slices with SPARE CAPACITY (a prefix of a larger array, a list built with append): an append inside the
+		// library must not write into the caller's array behind len
+		for i, c := range w {
+			if c.fn == 1 || len(c.list) == 0 || i%3 != 0 {
+				continue
+			}
+			backing := make([]string, len(c.list), len(c.list)+4)
+			copy(backing, c.list)
+			full := backing[:cap(backing)]
+			for j := len(c.list); j < len(full); j++ {
+				full[j] = "SENTINEL-" + itoa(j)
+			}
+			got := (&call{fn: c.fn, expr: c.expr, list: backing}).run()
+			res.Evaluations++
+			count("spare_capacity_calls")
+			for j := len(c.list); j < len(full); j++ {
+				if full[j] != "SENTINEL-"+itoa(j) {
+					fail(failure{Stream: "oracle", What: "a call wrote into the caller's array behind the length of the slice it was given (spare capacity): " + c.String(), Case: &kase{Expr: c.expr, ExprHex: hx(c.expr), Allowed: c.list, Extra: map[string]string{"fn": itoa(c.fn), "index": itoa(j), "written": hx(full[j])}}, Impl: show(full[j]), Expected: "SENTINEL-" + itoa(j)})
+					break
+				}
+			}
+			if got != base[i] {
+				fail(failure{Stream: "oracle", What: "a call answers differently when its list has spare capacity: " + c.String(), Case: &kase{Expr: c.expr, ExprHex: hx(c.expr), Allowed: c.list, Extra: map[string]string{"fn": itoa(c.fn)}}, Impl: show(got), Expected: show(base[i])})
+				break
+			}
+		}
 		// (b0) the caller writes into what it was given: the slices ExtractLicenses returned are overwritten and re-sorted,
 		// then the same calls are made again — a library that hands out its own storage answers differently afterwards
 		for i, c := range w {
